@@ -68,8 +68,12 @@ CLAIMED['C01'] = dict(
          'oversubscribed), C01_views (a server lists exactly the instances that name it, without repetition; an '
          'instance is listed by at most one server). Proof: Sched/Steps.v reduces a whole cycle (pre-phases, queue, '
          'placement loop with eviction, restore, renewal) to eight primitive transitions; Sched/InvAcct.v proves the '
-         'invariant for each primitive and each event. Partial: unit spellings (1G = 1024M, 100% = 100) are covered '
-         'by C19\'s parser model and the correspondence only.',
+         'invariant for each primitive and each event. Unit spellings: Props/C01Units.v (17 theorems over a '
+         'string-level model of utils.cpu_units/size_to_bytes/kilobytes/megabytes and loader.resources: nG = 1024n M, '
+         'nT = 1024^2 n M, the B modifier = powers of 1000, every suffix in any letter case between blanks, n% = n, '
+         'same quantity => same resource vector; scale table, multipliers and the parser assignment of resources() '
+         'regenerated from the source every run, premise C01U_tables_ok by vm_compute). Loader level '
+         '(reload_server) is decided by an oracle stage on the real Master.',
     note=SCHED_NOTE + ' Hypotheses of C01_invariant (wf_ops): a new server has a fresh name, non-negative capacity of '
          'the cell\'s dimension and is not named by a stale instance; a new instance is unplaced with a non-negative '
          'demand of that dimension.',
